@@ -376,7 +376,7 @@ func r09_4(c *Ctx, rule string) {
 		return
 	}
 	c.R.Check(c.DerivesFrom(look.Index, func(v ssa.Value) bool { return isFieldLoad(v, "syscall.Stat_t.Ino") }, 3), rule, base+"/inode-key", c.pos(look), "keyed by Stat_t.Ino", "the inode map is not keyed by the inode number")
-	okKey := look.Name() + "#1"
+	okKey := c.reg(look) + "#1"
 	stores := fieldStoresIn(su, "types.Stat.Linkname")
 	for i, s := range stores {
 		con := fmt.Sprintf("%s/linkname-store#%d", base, i+1)
